@@ -74,7 +74,7 @@ def value(kind, cls, L):
         'dict_empty': lambda: {}, 'dict_int_key': lambda: {1: 3.5}, 'dict_fn_f': lambda: {'f': f1}, 'dict_fn_sin': lambda: {'sin': f1},
         'dict_fn_rand': lambda: {'f': L['RandomFunction']()}, 'dict_fn_list': lambda: {'f': [f1, f1b]},
         'dict_const_c': lambda: {'c': 3.5}, 'dict_const_x': lambda: {'x': 3.5}, 'dict_const_pi': lambda: {'pi': 3.5},
-        'dict_const_del': lambda: {'pi': None}, 'dict_str_str': lambda: {'c': 'abc'}, 'dict_sample_x': lambda: {'x': [1, 3]},
+        'dict_const_del': lambda: {'pi': None}, 'dict_const_arr': lambda: {'A': L['MathArray']([[1, 2], [3, 4]])}, 'dict_str_str': lambda: {'c': 'abc'}, 'dict_sample_x': lambda: {'x': [1, 3]},
         'dict_range': lambda: {'start': 2, 'stop': 4},
         'dict_asm': lambda: {'is_raised': False, 'msg_detail': 'shape'}, 'dict_asm_part': lambda: {'is_raised': False},
         'dict_asm_bad': lambda: {'is_raised': 'abc'}, 'dict_asm_unknown': lambda: {'zz': 1},
@@ -225,7 +225,11 @@ def attempt(fn, L):
     except voluptuous.Error as e:
         return 'reject', type(e).__name__, None
     except Exception as e:  # neither success nor a configuration / validation error
-        return 'other', type(e).__name__, None
+        msg = str(e)
+        root = ('range-validator' if "'>=' not supported" in msg or "'<=' not supported" in msg else
+                'length-validator' if 'has no len()' in msg else
+                'interval-ordering' if "'>' not supported" in msg or "'<' not supported" in msg else 'unclassified')
+        return 'other', '%s:%s' % (type(e).__name__, root), None
 
 
 def construct_both(cls, pairs, L):
@@ -802,15 +806,17 @@ def rand_records(rng, n, table):
         r = rng.random()
         if r < .55:
             cls = rng.choice(classes)
-            opts = [o for o in sorted(table[cls]) if o not in ('-', '_value')]
-            k = min(len(opts), rng.randint(2, 6))
+            opts = [o for o in sorted(table[cls]) if o not in ('-', '_value', 'zz_unknown_option')]
+            k = min(len(opts), rng.randint(1, 6))
             pairs = []
             for o in rng.sample(opts, k):
                 good = [v for v, e in table[cls][o] if e == 'accept' and v != 'ABSENT']
                 bad = [v for v, e in table[cls][o] if e == 'reject' and v != 'ABSENT']
-                pool = good if (good and (not bad or rng.random() < .85)) else bad
+                pool = good if (good and (not bad or rng.random() < .93)) else bad
                 if pool:
                     pairs.append([o, rng.choice(pool)])
+            if rng.random() < .04 and 'zz_unknown_option' in table[cls]:
+                pairs.append(['zz_unknown_option', 'int_one'])
             have = {o for o, _ in pairs}
             for o, vals in table[cls].items():        # keep required options unless this case drops one on purpose
                 if any(v == 'ABSENT' for v, _ in vals) and o not in have and o != '_value' and rng.random() < .95:
@@ -972,6 +978,9 @@ def run(ctx):
             eq_raised += r['eq_raised']
             for b in r['bad']:
                 report(ctx, b)
+    for opts in table.values():          # TLC's dump order depends on worker scheduling: make the random driver deterministic
+        for o in opts:
+            opts[o] = sorted(opts[o])
     # code -> spec
     n = 2500 if ctx.quick else 40000
     cases = rand_records(ctx.rng, n, table)
@@ -1004,12 +1013,66 @@ def run(ctx):
 
 
 def replay(ctx, rec):
+    """re-run the recorded failing case against the current tree; True iff the recorded aspect now holds"""
     from engine import repo
     repo.activate()
     L = lib()
     sig = rec['signature']
-    print('signature:', sig)
+    part = str(sig.get('part', '')).replace('trace:', '')
+    aspect = str(sig.get('aspect'))
+    expected = sig.get('expected')
+    want = 'accept' if (expected == 'accept' or aspect == 'rejects') else 'reject' if (expected == 'reject' or aspect == 'accepts') else None
+    print('case    :', part, describe(sig) if ('cfg' in sig or 'ans' in sig or 'la' in sig) else {k: sig[k] for k in sig if k not in (
+        'aspect', 'class', 'expected', 'observed', 'part')})
+    print('recorded:', aspect, '-- documented:', expected, '-- code:', sig.get('observed'))
     if 'cfg' in sig and 'cls' in sig:
-        first, second = construct_both(sig['cls'], [tuple(p) for p in sig['cfg']], L)
-        print('dict form:', first[:2], ' kwargs form:', second[:2] if second else None)
+        pairs = [tuple(p) for p in sig['cfg']]
+        first, second = construct_both(sig['cls'], pairs, L)
+        statuses = [first[0]] + ([second[0]] if second else [])
+        print('now     : dict form', first[:2], ' kwargs form', second[:2] if second else None)
+        if aspect == 'exception':
+            return 'other' not in statuses
+        if aspect in ('verdict', 'accepts', 'rejects'):
+            return all(x == want for x in statuses)
+        if first[0] != 'accept':
+            return False
+        if aspect == 'idempotent':
+            facts = check_object(sig['cls'], first[2], L)
+            print('now     :', facts)
+            return facts['idempotent'] is not False
+        if aspect == 'kwargs':
+            return second is None or (second[0] == 'accept' and deq(first[2].config, second[2].config))
+        if aspect in ('defaults', 'default', 'missing'):
+            od = observed_defaults(pairs, first[2], L) or {}
+            text = str(expected)
+            if ' = ' in text:                       # replay form:  "opt = token"
+                opt, token = text.split(' = ', 1)
+            elif text.startswith('default:'):        # trace clause: "default:opt documented token"
+                opt, token = text[len('default:'):].split(' documented ', 1)
+            else:                                    # "opt present" / "missing:opt"
+                opt, token = text.replace('missing:', '').replace(' present', ''), None
+            print('now     : %s -> %s' % (opt, od.get(opt, 'absent')))
+            return opt in od and (token is None or od[opt] == token)
+        return False
+    if part == 'answers':
+        obs = observe_answers(sig['cls'], sig['ans'], L)
+    elif part == 'listans':
+        obs = observe_listans(sig['cls'], sig.get('la') or sig['ans'], L)
+    else:
+        case = sig.get('case') or sig
+        obs = observe_lg(case, L) if part == 'lgroup' else observe_nested(sig.get('chain') or case['chain'], L) if part == 'nested' \
+            else observe_interval(case, L) if part == 'interval' else observe_square(case, L)
+    print('now     :', {k: obs[k] for k in ('status', 'exc', 'status_kw', 'exc_kw', 'canon_ok', 'kwargs_equal', 'idempotent', 'detail')
+                       if k in obs})
+    statuses = [obs['status'], obs['status_kw']]
+    if aspect == 'exception':
+        return 'other' not in statuses
+    if aspect in ('verdict', 'accepts', 'rejects'):
+        return all(x == want for x in statuses)
+    if aspect == 'canonical':
+        return obs['status'] == 'accept' and obs['canon_ok'] and (not isinstance(expected, list) or obs.get('canon') == expected)
+    if aspect == 'idempotent':
+        return obs['status'] == 'accept' and obs['idempotent']
+    if aspect == 'kwargs':
+        return obs['kwargs_equal']
     return False
